@@ -7,7 +7,7 @@ import numpy as np
 
 from vlib import clock, graphs as G, gens, oracles
 from vlib.base import import_dsw, derive_seed, jdump
-from vlib.coding import monitored, encode_budget, is_strand
+from vlib.coding import monitored, encode_budget, is_strand, int_str_trap
 from vlib.proxies import CountingAccessor, AccessBudgetExceeded
 
 ID = "C04"
@@ -98,6 +98,15 @@ def generate(ctx):
             continue
         for t in (1, 2, 3, 4):
             yield "graph", dict(k=2, mask="%x" % m, t=t, fam="order2", all_starts=True, n_msgs=ctx.pick(4, 3))
+    import json
+    import os
+    corpus = os.path.join(os.path.dirname(os.path.abspath(__file__)), "corpus_deep_masks.json")
+    if os.path.exists(corpus):
+        for ci, item in enumerate(json.load(open(corpus))):     # masks that need up to 13 pruning sweeps (found by search)
+            if ctx.mine(ci):
+                yield "graph", dict(k=item["k"], mask=item["mask"], t=1, fam="deep-sweeps", all_starts=True, n_msgs=4)
+    if ctx.shard < ctx.pick(4, 32):
+        yield "graph", dict(k=rng.choice([1, 2]), mask="f" * (4 if rng.random() < 0.5 else 1), t=rng.choice([1, 2]), fam="long-message", all_starts=False, n_msgs=1, long=True)
     ks = ctx.pick([1, 3, 3, 4], [1, 3, 3, 4, 4, 5])
     from props.C03 import _cycle_mask, _filter_mask
     for _ in range(ctx.pick(60, 800)):
@@ -162,20 +171,31 @@ def check_graph(ctx, case):
         for mi in range(case["n_msgs"]):
             bits, mclass = gens.message(rng, max_len, rng.choice(MESSAGE_KINDS))
             fast = no3 and rng.random() < 0.4
+            if case.get("long"):
+                bits, mclass, fast = gens.message(rng, 8, "long")[0], "long", False
             _encode_one(ctx, dsw, case, acc, k, t, V, has1, complete, int(start), bits, fast, mclass)
+        if rng.random() < 0.15:
+            # buffer twins, one after the other: a short int64 message and the uint8 message with the same raw bytes
+            short = [rng.randint(0, 1) for _ in range(rng.randint(1, 5))]
+            raw = list(np.array(short, dtype="int64").tobytes())
+            pair = [(raw, "uint8"), (short, "int64")]
+            if rng.random() < 0.5:
+                pair.reverse()
+            for b2, dt in pair:
+                _encode_one(ctx, dsw, case, acc, k, t, V, has1, complete, int(start), b2, False, "twin", dtype=dt)
 
 
-def _encode_one(ctx, dsw, case, acc, k, t, V, has1, complete, start, bits, fast, mclass):
+def _encode_one(ctx, dsw, case, acc, k, t, V, has1, complete, start, bits, fast, mclass, dtype="int64"):
     L = len(bits)
     value = oracles.bits_value(bits)
-    sub = dict(k=k, arcs=G.acc_to_hex(acc), t=t, start=start, bits=bits, fast=fast)
+    sub = dict(k=k, arcs=G.acc_to_hex(acc), t=t, start=start, bits=bits, fast=fast, dtype=dtype)
     nontrivial = has1 or (t >= 2 and L >= 2)
     read_budget = 4 * L * V + 8  # cut for non-termination; the property's bound itself is checked on the strand length
     proxy = CountingAccessor(acc, read_budget=read_budget)
     del TRACE[:]
-    with clock.budget(encode_budget(L, V)) as b:
+    with clock.budget(encode_budget(L, V)) as b, int_str_trap():
         try:
-            out = dsw.encode(np.array(bits, dtype=int), proxy, start, is_faster=fast)
+            out = dsw.encode(np.array(bits, dtype=dtype), proxy, start, is_faster=fast)
             kind = "ok"
         except AccessBudgetExceeded:
             kind, out = "lookups", None
@@ -261,7 +281,7 @@ def check_encode(ctx, case):
     acc = gens.acc_of(case)
     degs_all = G.out_degrees(acc)
     _encode_one(ctx, dsw, dict(fam="replay"), acc, case["k"], case["t"], int((degs_all > 0).sum()), bool((degs_all == 1).any()),
-                bool((degs_all == 4).all()), case["start"], case["bits"], case["fast"], "replay")
+                bool((degs_all == 4).all()), case["start"], case["bits"], case["fast"], "replay", dtype=case.get("dtype", "int64"))
 
 
 CHECKS = {"graph": check_graph, "encode": check_encode}
@@ -272,7 +292,8 @@ def floors(agg, tier):
     c = agg["classes"]
     for name, need in (("t1|normal", 1000), ("t1|fast", 300), ("t2|normal", 1000), ("t2|fast", 300), ("t3|normal", 50),
                        ("t4|normal", 20), ("normal|met out-degree 1", 500), ("normal|met out-degree 3", 200),
-                       ("fast|carried L+1", 50), ("family|chain", 100), ("family|localbiofilter", 10), ("msg|zeros", 100)):
+                       ("fast|carried L+1", 50), ("family|chain", 100), ("family|localbiofilter", 10), ("msg|zeros", 100),
+                       ("family|deep-sweeps", 20), ("msg|long", 2), ("msg|twin", 200)):
         if c.get(name, 0) < need:
             out.append("%s observed %d < %d" % (name, c.get(name, 0), need))
     if agg["obs_max"].get("longest out-degree-1 run", 0) < 3:
